@@ -647,10 +647,12 @@ class Trellis:
             self.application_id, self.schema_version, schema_scripts
         )
         async with self.db:
-            if is_fresh:
+            # An existing database without a root node was never used:
+            # the process that created the tables was killed before its first transaction.
+            self._root = None if is_fresh else self.find(Root, "")
+            if self._root is None:
                 self._root = self.create(Root, None)
             else:
-                self._root = self.find(Root, "")
                 self._rebuild_temp_tables()
                 self._check_consistency()
 
